@@ -143,12 +143,13 @@ int main(int argc, char** argv)
         o.guarded = true;
         o.fees = "mh"; o.fees3 = "h";
         o.child_fees = "h";
-        o.thr = "acde";
-        o.thr_rb = "cd"; o.thr_sb = "cd"; o.thr_pr = "cdh";
+        o.thr = "acd";
+        o.thr_rb = "cd"; o.thr_sb = "cd"; o.thr_pr = "ch";
         o.max_idx = 2;
-        o.prio_minus = true; o.prio_next = false;
+        o.prio_minus = false; o.prio_next = false;
+        o.n_only_when_empty = true; o.child_outs = 1;
         o.depth_quick = 3; o.depth_thorough = 4;
-        if (vx::thorough()) { o.thr = "abcde"; o.thr_rb = "bcde"; o.thr_sb = "bcde"; o.thr_pr = "cdeh"; o.classes.insert("J"); }
+        if (vx::thorough()) { o.prio_minus = true; o.child_outs = 2; o.depth_thorough = 4; o.thr = "abcde"; o.thr_rb = "bcde"; o.thr_sb = "bcde"; o.thr_pr = "cdeh"; o.classes.insert("J"); }
         return ps::Configs{{"", o}};
     }, mon);
 }
